@@ -45,6 +45,17 @@ var scenarios = map[string]scenario{
 	"flow-debt-claim":     {run: flowDebtClaim, genesis: func(g *GenesisSpec) { g.NodeParams.Baseline = sdk.NewInt64Coin(Denom, 1); g.NodeParams.BlockReward = sdk.NewInt64Coin(Denom, 1000) }},
 	"flow-renew2-migrate": {run: flowRenew2Migrate},
 	"flow-debt-release":   {run: flowDebtRelease},
+	"flow-short-renewal":  {run: flowShortRenewal},
+	"flow-renewed-versions": {run: flowRenewedVersions},
+	"flow-late-ready":     {run: flowLateReady},
+	"flow-stale-order":    {run: flowStaleOrder},
+	"flow-genesis-many":   {run: flowGenesisMany, genesis: func(g *GenesisSpec) {
+		for i := 0; i < 110; i++ {
+			a := NewAccount(fmt.Sprintf("m%d", i), "s")
+			g.Accounts = append(g.Accounts, a)
+			g.Balances[a.Name] = 1000000000
+		}
+	}},
 	"flow-sponsor-rollback": {run: flowSponsorRollback},
 	"flow-rollover-coincide": {run: flowRolloverCoincide, genesis: func(g *GenesisSpec) { g.NodeParams.OfflineTriggerHeight = 100000 }},
 	"flow-fault-not-held": {run: flowFaultNotHeld, genesis: func(g *GenesisSpec) { g.NodeParams.FishmenInfo = g.Accounts[10].Bech() }},
@@ -431,6 +442,9 @@ func flowDebtClaim(r *Recorder, accts []*Account) {
 	r.Send(p, accts[8], bal-100)
 	m.renew(o, dataA, 36000)
 	r.EndBlock()
+	r.BeginBlock()
+	r.ClaimReward(p) // one block of reward: less than the debt, which is reduced by exactly that much
+	r.EndBlock()
 	r.Blocks(5)
 	r.BeginBlock()
 	r.ClaimReward(p)
@@ -482,8 +496,11 @@ func flowFaultNotHeld(r *Recorder, accts []*Account) {
 	m := newMiniWorld(r, accts, 3)
 	o := m.owners[0]
 	fishman := accts[9]
+	loud := accts[10] // a node that is not a designated fishman but declares the fishing bit in its own status
 	r.BeginBlock()
 	r.NodeCreate(fishman)
+	r.NodeCreate(loud)
+	r.NodeReset(loud, "", 33, "", nil)
 	m.store(o, dataA, dataA, 1, 1000000, 2, 3600, 8)
 	r.EndBlock()
 	r.BeginBlock()
@@ -511,6 +528,12 @@ func flowFaultNotHeld(r *Recorder, accts []*Account) {
 	r.EndBlock()
 	r.BeginBlock()
 	report()
+	for _, sh := range m.w.ctxShards() {
+		if sh.Status == 2 { // a valid report by the undesignated node: refused
+			f := &saotypes.Fault{DataId: dataA, OrderId: 1, ShardId: sh.Id, CommitId: "lost", Provider: sh.Sp, Reporter: loud.Bech()}
+			r.ReportFaults(loud, sh.Sp, []*saotypes.Fault{f})
+		}
+	}
 	r.EndBlock()
 	// the accused providers declare recovery, the fishman confirms: the confirmation would clear the fault
 	// (on the real chain that transaction panics on an empty store key and is rejected)
@@ -522,10 +545,14 @@ func flowFaultNotHeld(r *Recorder, accts []*Account) {
 		}
 		own := &saotypes.Fault{DataId: dataA, OrderId: 1, ShardId: sh.Id, CommitId: dataA, Provider: sh.Sp, Reporter: sp.Bech()}
 		r.RecoverFaults(sp, sh.Sp, []*saotypes.Fault{own})
+		lconf := &saotypes.Fault{DataId: dataA, OrderId: 1, ShardId: sh.Id, CommitId: dataA, Provider: sh.Sp, Reporter: loud.Bech()}
+		r.RecoverFaults(loud, sh.Sp, []*saotypes.Fault{lconf})
 		conf := &saotypes.Fault{DataId: dataA, OrderId: 1, ShardId: sh.Id, CommitId: dataA, Provider: sh.Sp, Reporter: fishman.Bech()}
 		r.RecoverFaults(fishman, sh.Sp, []*saotypes.Fault{conf})
 	}
 	r.EndBlock()
+	// with fault records on the books the chain passes the penalty sweep of the node module (every 600 blocks)
+	r.Blocks(int(605 - r.c.Height))
 }
 
 // Requests that name the real owner in the proposal but carry the header and signature of an unrelated
@@ -548,6 +575,12 @@ func flowForgedOwner(r *Recorder, accts []*Account) {
 	m.store(forger, dataA, dataA+"|bbbbbbbb-comm-4000-8000-00000000000b", 1, 1000000, 1, 3600, 100)
 	tp := saotypes.TerminateProposal{Owner: o.did, DataId: dataA}
 	r.Terminate(m.gw, &saotypes.MsgTerminate{Creator: m.gw.Bech(), Proposal: tp, JwsSignature: SignJWS(&tp, forger.key, forger.kid), Provider: m.gw.Bech()})
+	// the forger's own request, charged to the victim's DID, with the victim's payment address named as provider
+	dataF := "ffffffff-data-4000-8000-00000000000f"
+	fp := m.w.proposal(forger, m.gw, dataF, dataF, 1, 1000000, 1, 3600, 100)
+	fp.PaymentDid = o.did
+	r.Store(forger.acct, &saotypes.MsgStore{Creator: forger.acct.Bech(), Proposal: fp, JwsSignature: SignJWS(&fp, forger.key, forger.kid), Provider: o.acct.Bech()})
+	r.Store(forger.acct, &saotypes.MsgStore{Creator: forger.acct.Bech(), Proposal: fp, JwsSignature: SignJWS(&fp, forger.key, forger.kid), Provider: m.gw.Bech()})
 	tp2 := saotypes.TerminateProposal{Owner: forger.did, DataId: dataA}
 	r.Terminate(m.gw, &saotypes.MsgTerminate{Creator: m.gw.Bech(), Proposal: tp2, JwsSignature: SignJWS(&tp2, forger.key, forger.kid), Provider: m.gw.Bech()})
 	r.EndBlock()
@@ -854,4 +887,189 @@ func flowSponsorRollback(r *Recorder, accts []*Account) {
 	r.Cancel(sp.acct, sp.acct.Bech(), lastOrder())
 	r.EndBlock()
 	r.Blocks(2)
+}
+
+// A renewal that needs less collateral than the shard already holds (shorter than the running period): the shard
+// keeps what was taken; at the roll-over into the renewal nothing of it is forgotten, and at the end all of it returns.
+func flowShortRenewal(r *Recorder, accts []*Account) {
+	m := newMiniWorld(r, accts, 1)
+	o := m.owners[0]
+	p := m.providers[0]
+	r.BeginBlock()
+	m.store(o, dataA, dataA, 1, 1000000, 1, 7200, 100)
+	m.completeAll()
+	end1 := r.c.Height + 7200
+	r.EndBlock()
+	r.BeginBlock()
+	m.renew(o, dataA, 3600)
+	r.EndBlock()
+	r.Blocks(int(end1 - r.c.Height + 2))
+	r.BeginBlock()
+	r.ClaimReward(p)
+	r.EndBlock()
+	r.Blocks(int(end1 + 3600 - r.c.Height + 2))
+	r.BeginBlock()
+	r.ClaimReward(p)
+	r.EndBlock()
+}
+
+// An update still waiting for its provider when the owner terminates the model; another owner then creates a model
+// under the same data id; the provider finally reports the stale update as stored. It must not touch the new model.
+func flowStaleOrder(r *Recorder, accts []*Account) {
+	m := newMiniWorld(r, accts, 1)
+	o, p2 := m.owners[0], m.owners[1]
+	sp := m.providers[0]
+	r.BeginBlock()
+	m.store(o, dataA, dataA, 1, 1000000, 1, 3600, 100)
+	m.completeAll()
+	r.EndBlock()
+	r.BeginBlock()
+	m.store(o, dataA, dataA+"|bbbbbbbb-comm-4000-8000-00000000000b", 1, 1000000, 1, 3600, 100) // order 2 stays waiting
+	r.EndBlock()
+	r.BeginBlock()
+	tp := saotypes.TerminateProposal{Owner: o.did, DataId: dataA}
+	r.Terminate(m.gw, &saotypes.MsgTerminate{Creator: m.gw.Bech(), Proposal: tp, JwsSignature: SignJWS(&tp, o.key, o.kid), Provider: m.gw.Bech()})
+	r.EndBlock()
+	r.BeginBlock()
+	m.store(p2, dataA, dataA, 1, 500000, 1, 3601, 100) // the other owner's model under the same data id: order 3
+	for _, sh := range m.w.ctxShards() {
+		if sh.OrderId == 3 && sh.Status == 0 {
+			r.Complete(sp, sp.Bech(), 3, goodCid2, sh.Size_)
+		}
+	}
+	r.EndBlock()
+	r.BeginBlock()
+	for _, sh := range m.w.ctxShards() {
+		if sh.OrderId == 2 && sh.Status == 0 {
+			r.Complete(sp, sp.Bech(), 2, goodCid2, sh.Size_)
+		}
+	}
+	r.EndBlock()
+	r.Blocks(3)
+}
+
+// More than a hundred of everything the storage modules keep lists of (nodes, pledges, payment addresses, models,
+// orders, shards, schedule entries, workers), then export and re-initialisation: nothing is cut off at a page size.
+func flowGenesisMany(r *Recorder, accts []*Account) {
+	c := r.c
+	var many []*Account
+	for i := 0; i < 110; i++ {
+		many = append(many, c.Accounts[fmt.Sprintf("m%d", i)])
+	}
+	w := &saoWorld{rng: rand.New(rand.NewSource(7)), r: r, c: c, grants: map[string]*owner{}}
+	gw := accts[0]
+	// the block gas limit of the test chain admits about ten of these transactions per block
+	n := 0
+	tick := func(k int) {
+		n += k
+		if n >= 8 {
+			r.EndBlock()
+			r.BeginBlock()
+			n = 0
+		}
+	}
+	r.BeginBlock()
+	r.NodeCreate(gw)
+	r.NodeReset(gw, "", 3, "", nil)
+	for _, a := range many {
+		r.NodeCreate(a)
+		r.NodeReset(a, "", 13, "", nil)
+		r.AddVstorage(a, 3000000)
+		tick(3)
+	}
+	var owners []*owner
+	for i := 0; i < 104; i++ {
+		owners = append(owners, w.mkKeyOwner(many[i], fmt.Sprintf("many%d", i)))
+		tick(1)
+	}
+	w.gateways = []*Account{gw}
+	for i := 0; i < 104; i++ {
+		dataId := fmt.Sprintf("%08d-data-4000-8000-00000000000a", i)
+		p := w.proposal(owners[i], gw, dataId, dataId, 1, 1000000, 1, 3600, 100)
+		r.Store(gw, &saotypes.MsgStore{Creator: gw.Bech(), Proposal: p, JwsSignature: SignJWS(&p, owners[i].key, owners[i].kid), Provider: gw.Bech()})
+		tick(2)
+		for _, sh := range w.ctxShards() {
+			if sh.Status == 0 {
+				if sp := w.acctByAddr(sh.Sp); sp != nil {
+					r.Complete(sp, sp.Bech(), sh.OrderId, goodCid2, sh.Size_)
+					tick(2)
+				}
+			}
+		}
+	}
+	r.EndBlock()
+	r.ExportImport()
+	r.BeginBlock()
+	for _, a := range many[100:110] {
+		r.RemoveVstorage(a, 1000000)
+		tick(1)
+	}
+	r.EndBlock()
+	r.Blocks(2)
+}
+
+// Versions of a renewed model: created, updated, renewed; an update is then cancelled before anything is stored (the
+// model returns to what it was, renewal order included), and a force-push replaces only the latest version.
+func flowRenewedVersions(r *Recorder, accts []*Account) {
+	m := newMiniWorld(r, accts, 1)
+	o := m.owners[0]
+	c2 := "bbbbbbbb-comm-4000-8000-00000000000b"
+	c3 := "cccccccc-comm-4000-8000-00000000000c"
+	cx := "dddddddd-comm-4000-8000-00000000000d"
+	lastOrder := func() uint64 {
+		var id uint64
+		for _, x := range m.w.ctxOrders() {
+			if x.Id > id {
+				id = x.Id
+			}
+		}
+		return id
+	}
+	r.BeginBlock()
+	m.store(o, dataA, dataA, 1, 1000000, 1, 3600, 100)
+	m.completeAll()
+	r.EndBlock()
+	r.BeginBlock()
+	m.store(o, dataA, dataA+"|"+c2, 1, 1000000, 1, 3600, 100)
+	m.completeAll()
+	r.EndBlock()
+	r.BeginBlock()
+	m.renew(o, dataA, 4000)
+	r.EndBlock()
+	r.BeginBlock()
+	m.store(o, dataA, c2+"|"+cx, 1, 1000000, 1, 3600, 100)
+	r.EndBlock()
+	r.BeginBlock()
+	r.Cancel(m.gw, m.gw.Bech(), lastOrder())
+	r.EndBlock()
+	r.BeginBlock()
+	m.store(o, dataA, c2+"|"+c3, 2, 1000000, 1, 3600, 100)
+	m.completeAll()
+	r.EndBlock()
+	r.BeginBlock()
+	m.store(o, dataA, c3+"|"+cx, 1, 1000000, 1, 3600, 100) // the model still takes updates
+	m.completeAll()
+	r.EndBlock()
+	r.Blocks(3)
+}
+
+// The two-step store: an account bound to the owner's DID places the order itself (it stays pending), the gateway
+// hands it to providers long after the order's timeout span has passed since its creation, and the provider stays
+// silent: the order must still be re-examined, given up and refunded.
+func flowLateReady(r *Recorder, accts []*Account) {
+	m := newMiniWorld(r, accts, 1)
+	r.BeginBlock()
+	o := m.w.mkSidOwner(accts[9], "late")
+	r.EndBlock()
+	r.BeginBlock()
+	p := m.w.proposal(o, m.gw, dataA, dataA, 1, 1000000, 1, 3600, 10)
+	r.Store(o.acct, &saotypes.MsgStore{Creator: o.acct.Bech(), Proposal: p, JwsSignature: SignJWS(&p, o.key, o.kid), Provider: m.gw.Bech()})
+	r.EndBlock()
+	r.Blocks(25)
+	r.BeginBlock()
+	for _, x := range m.w.ctxOrders() {
+		r.Ready(m.gw, m.gw.Bech(), x.Id)
+	}
+	r.EndBlock()
+	r.Blocks(125)
 }
